@@ -260,6 +260,19 @@ impl<'a> PathRun<'a> {
                     return None;
                 }
             }
+            // C14: equal classes share one datum - read the datum through every OLD id right after
+            // the union, before anything canonicalises the handles (path compression)
+            let old_data: Vec<Option<(u64, u64)>> = handles.iter().map(|(_, h)| guard(|| N::datum(&eg, h.id)).ok().flatten()).collect();
+            for ((ui, h), od) in handles.iter().zip(old_data.iter()) {
+                let Some(od) = od else { continue };
+                if let Ok(Some(nd)) = guard(|| N::datum(&eg, eg.find_applied_id(h).id)) {
+                    if *od != nd {
+                        self.finding("C14", "datum read through an old id differs from the datum of its class", &key, path, step + 1, "",
+                            json!({"handle_of": ctx.us[*ui].show(), "through_old_id": [od.0, od.1], "class": [nd.0, nd.1]}));
+                        break;
+                    }
+                }
+            }
             handles.push((ctx.pool_ui[a - 1], ia));
             handles.push((ctx.pool_ui[b - 1], ib));
 
@@ -379,6 +392,7 @@ impl<'a> PathRun<'a> {
                 final_fp = Some(self.fingerprint(&obs, &eg));
                 self.check_matching(spec, &obs, &eg, &key, path, step + 1);
                 self.check_extraction(spec, &obs, &eg, &key, path, step + 1);
+                self.check_old_handles_extract(&eg, &handles, &key, path, step + 1);
                 self.readd(spec, &obs, &mut eg, &key, path, step + 1);
             }
             prev_obs = Some(obs);
@@ -644,6 +658,36 @@ impl<'a> PathRun<'a> {
                             }
                         }
                     }
+                }
+            }
+        }
+    }
+
+    /// C13: every invocation ever returned (possibly of a class that was merged away since) can
+    /// still be extracted from, and the extracted term is represented in exactly that invocation.
+    fn check_old_handles_extract<N: AnKind>(&mut self, eg: &EGraph<T, N>, handles: &[(usize, AppliedId)], key: &[usize], path: &[(usize, bool)], step: usize) {
+        let ctx = self.ctx;
+        let ex = match guard(|| Extractor::<T, NamedCost>::new(eg, NamedCost("astsize"))) {
+            Ok(e) => e,
+            Err(_) => return, // reported by C06
+        };
+        for (ui, h) in handles {
+            let r = guard(|| {
+                let t = ex.extract(h, eg);
+                let back = lookup_rec_expr(&t, eg);
+                (t.to_string(), back.as_ref().map(|b| eg.eq(b, h)))
+            });
+            match r {
+                Ok((_, Some(true))) => {}
+                Ok((t, other)) => {
+                    self.finding("C13", "term extracted from an old invocation is not represented in that invocation", key, path, step, "",
+                        json!({"handle_of": ctx.us[*ui].show(), "extracted": t, "lookup": format!("{other:?}")}));
+                    return;
+                }
+                Err(p) => {
+                    self.stats.panics += 1;
+                    self.finding("C13", "old handle unusable (panic in extract)", key, path, step, &site_key(&p), json!({"msg": p.msg, "handle_of": ctx.us[*ui].show()}));
+                    return;
                 }
             }
         }
